@@ -15,6 +15,7 @@
 import AITB.Props.C18c
 import AITB.Props.C18d
 import AITB.Props.C18e
+import AITB.Props.C18f
 import AITB.Gen.Dispatch
 namespace AITB.Cassandra
 
